@@ -408,6 +408,22 @@ var NSForms = []NSForm{
 		p.Sc = NewScope("A")
 		body()
 	}},
+	// an import takes effect for the code that follows it: the same reference before and after the imports
+	{"the reference also before the imports; namespace A;", func(p *Prog, imps []Import, body func()) {
+		p.W("namespace A; ")
+		p.Sc = NewScope("A")
+		body()
+		p.W(" ")
+		addAll(p, imps)
+		body()
+	}},
+	{"the reference also before the imports; no namespace", func(p *Prog, imps []Import, body func()) {
+		p.Sc = NewScope("")
+		body()
+		p.W(" ")
+		addAll(p, imps)
+		body()
+	}},
 	{"after a declaration in the same namespace", func(p *Prog, imps []Import, body func()) {
 		p.W("namespace A; ")
 		p.Sc = NewScope("A")
@@ -445,7 +461,13 @@ func ValidFor(pos Position, n string) bool {
 		}
 		return pos.PHP7
 	case "const":
-		return SpecialConst[l]
+		// the scalar type names are ordinary identifiers outside type positions: `echo int;` fetches a constant
+		return SpecialConst[l] || plainWord[l]
+	case "function":
+		// … and `object([])` calls a function of that name (resolved like any other function name)
+		return plainWord[l]
 	}
 	return false
 }
+
+var plainWord = map[string]bool{"int": true, "float": true, "bool": true, "string": true, "void": true, "iterable": true, "object": true}
